@@ -6,7 +6,7 @@ export PATH=/usr/local/bin:$PATH
 ROOT=/verif
 id=${1:?property id}; tier=${2:-${VERIF_TIER:-quick}}; shift; shift 2>/dev/null || true
 cmd=$(echo "$id" | tr "A-Z" "a-z")
-case "$id" in C01|C02|C03|C04|C05|C06|C07|C13|C14|C19) cmd=chainmc; set -- -prop "$id" "$@";; C08|C09|C10|C15|C16) cmd=rhpmc; set -- -prop "$id" "$@";; esac
+case "$id" in C01|C02|C03|C04|C05|C06|C07|C13|C14|C19) cmd=chainmc; set -- -prop "$id" "$@";; C08|C09|C10|C15|C16) cmd=rhpmc; set -- -prop "$id" "$@";; C11|C12) cmd=syncmc; set -- -prop "$id" "$@";; esac
 cd $ROOT/engine || exit 2
 mkdir -p $ROOT/.build/bin $ROOT/evidence $ROOT/replays
 if [ ! -x $ROOT/.build/bin/overlaygen ] || [ cmd/overlaygen/main.go -nt $ROOT/.build/bin/overlaygen ]; then
